@@ -890,7 +890,7 @@ impl Property for C17 {
             ("tool:xe", 0.3),
             ("doc-has-escaped-characters", 0.3),
             ("tool:xq", 0.3),
-            ("edits:element", 0.08),
+            ("edits:element", 0.06),
             ("edits:attribute", 0.015),
             ("edits:root", 0.01),
             ("nested-selection", 0.01),
